@@ -458,9 +458,13 @@ func (s *Sys) exportImport(v int64, ord v2.TraverseOrderType, note func(string, 
 // exportFrom: Export(order) of a tree at version v -> WriteSnapshot into a new database -> load it.
 func (s *Sys) exportFrom(t *v2.Tree, v int64, ord v2.TraverseOrderType, note func(string, ...any)) string {
 	if len(s.refVers[v]) == 0 {
-		// Export of an empty tree dereferences the nil root in a goroutine of the library: the process
-		// dies and nothing can recover it (see the report); not executed here.
-		return "empty-tree-export-not-run(nil-root-crash)"
+		// an empty tree exports an empty stream
+		exp := t.Export(ord)
+		n, err := exp.Next()
+		if n == nil && errors.Is(err, v2.ErrorExportDone) {
+			return "ok"
+		}
+		return "empty-export-not-empty"
 	}
 	dst := s.tmpDir()
 	defer os.RemoveAll(dst)
